@@ -266,6 +266,73 @@ def tr_store_adapter(comp):
     return out
 
 
+TIMER = "simaple/simulate/timer.py"
+
+
+def tr_timer(repo):
+    """timer_delay_dispatcher (decorated by named_dispatcher) -> includes test and call"""
+    tree = ast.parse(open(os.path.join(str(repo), TIMER), encoding="utf-8").read())
+    base = ast.parse(open(os.path.join(str(repo), BASE), encoding="utf-8").read())
+    fn = find(tree, None, "timer_delay_dispatcher")
+    if [a.arg for a in fn.args.args] != ["action", "store"]:
+        bad(fn, "timer signature")
+    if not (len(fn.decorator_list) == 1 and isinstance(fn.decorator_list[0], ast.Call) and ast.unparse(fn.decorator_list[0].func) == "named_dispatcher"
+            and len(fn.decorator_list[0].args) == 1 and isinstance(fn.decorator_list[0].args[0], ast.Constant)
+            and isinstance(fn.decorator_list[0].args[0].value, str)):
+        bad(fn, "timer decorator is not named_dispatcher(<str>)")
+    direction = fn.decorator_list[0].args[0].value
+    same(find(base, None, "named_dispatcher"),
+         "def decorator(dispatcher: Dispatcher):\n    def _includes(signature: str) -> bool:\n        return signature == direction\n"
+         "    def _init_store(store: Store) -> None:\n        return\n    setattr(dispatcher, 'includes', _includes)\n"
+         "    setattr(dispatcher, 'init_store', _init_store)\n    return dispatcher\nreturn decorator\n", "named_dispatcher")
+    same(find(base, "Store", "use_entity"),
+         "def entity_setter(state):\n    self.set_entity(name, state)\nreturn (self.read_entity(name, default=default), entity_setter)\n",
+         "Store.use_entity")
+    b = body_of(fn)
+    if len(b) != 5:
+        bad(fn, "timer has %d statements, expected 5" % len(b))
+    s0, s1, s2, s3, s4 = b
+
+    def cond(e):
+        if isinstance(e, ast.BoolOp) and len(e.values) == 2:
+            return "%s %s %s" % (cond(e.values[0]), "&&" if isinstance(e.op, ast.And) else "||", cond(e.values[1]))
+        if isinstance(e, ast.Compare) and len(e.ops) == 1 and isinstance(e.ops[0], (ast.Eq, ast.NotEq)) and isinstance(e.comparators[0], ast.Constant) \
+                and isinstance(e.comparators[0].value, str) and (sub(e.left, "action", "method") or sub(e.left, "action", "name")):
+            f = "a_method" if sub(e.left, "action", "method") else "a_name"
+            t = "String.eqb (%s action) \"%s\"" % (f, e.comparators[0].value)
+            return "(%s)" % t if isinstance(e.ops[0], ast.Eq) else "negb (%s)" % t
+        bad(e, "timer: guard outside the language")
+    if not (isinstance(s0, ast.If) and not s0.orelse and len(s0.body) == 1 and isinstance(s0.body[0], ast.Return) and ast.unparse(s0.body[0].value) == "[]"):
+        bad(s0, "timer: guard is not `if t: return []`")
+    g = cond(s0.test)
+    if not (isinstance(s1, ast.Assign) and isinstance(s1.targets[0], ast.Tuple) and len(s1.targets[0].elts) == 2
+            and all(isinstance(x, ast.Name) for x in s1.targets[0].elts) and isinstance(s1.value, ast.Call)
+            and ast.unparse(s1.value.func) == "store.use_entity" and len(s1.value.args) == 2 and isinstance(s1.value.args[0], ast.Constant)
+            and isinstance(s1.value.args[0].value, str) and ast.unparse(s1.value.args[1]) == "Clock()"):
+        bad(s1, "timer: `clock, set_clock = store.use_entity(<address>, Clock())`")
+    ck, setter = (x.id for x in s1.targets[0].elts)
+    addr = s1.value.args[0].value
+    if ast.unparse(s2) != "%s.spent(action.get('payload'))" % ck:
+        bad(s2, "timer: clock.spent(action.get('payload'))")
+    if ast.unparse(s3) != "%s(%s)" % (setter, ck):
+        bad(s3, "timer: set_clock(clock)")
+    if not (isinstance(s4, ast.Return) and ast.unparse(s4.value) == "[]"):
+        bad(s4, "timer: return []")
+    return ["(* named_dispatcher(%r): includes(signature) = (signature == direction) *)\n"
+            "Definition src_timer_includes (signature : string) : bool := String.eqb signature \"%s\"." % (direction, direction),
+            "(* the dispatcher is installed at the root of the store: names with a period are global addresses *)\n"
+            "Definition src_timer_call (action : action Pay) (s : rst Ent Pay) : option (rst Ent Pay * list (event Pay)) :=\n"
+            "  let '(st, tr) := s in\n"
+            "  if %s then Some ((st, tr), []) else\n"
+            "  match read_entity Ent st (resolve root_addr \"%s\") (Some clock0) with\n"
+            "  | None => None\n"
+            "  | Some (st1, %s) =>\n"
+            "      match spent %s (a_pay action) with\n"
+            "      | None => None\n"
+            "      | Some %s' => Some ((dset st1 (resolve root_addr \"%s\") %s', tr), [])\n"
+            "      end\n  end." % (g, addr, ck, ck, ck, addr, ck)]
+
+
 def same(fn, text, what):
     got = body_of(fn)
     want = ast.parse(text).body
@@ -281,6 +348,7 @@ def gen(repo):
            tr_tag(find(comp, "ReducerMethodWrappingDispatcher", "tag_events_by_method_name"))]
     out.append(tr_find_mapping(find(comp, "ReducerMethodWrappingDispatcher", "_find_mapping_name")))
     out += tr_store_adapter(comp)
+    out += tr_timer(repo)
     # the string rules: small enough to be compared verbatim; the emitted definitions spell out what the text means
     same(find(base, None, "message_signature"),
          "if len(message['method']) == 0:\n    return message['name']\nreturn f\"{message['name']}.{message['method']}\"\n", "message_signature")
@@ -295,7 +363,7 @@ def gen(repo):
          "return AddressedStore(self._concrete_store, f'{self._current_address}.{address}')\n", "AddressedStore.local")
     out.append("Definition src_local (current_address address : string) : string := current_address ++ \".\" ++ address.")
     return {"WrapperSrc.v": HEADER + "\n\n".join(out) + "\n\nEnd WrapperSrc.\n"}, \
-        {"functions": ["ReducerMethodWrappingDispatcher.regularize_returned_event", "tag_events_by_method_name", "_find_mapping_name", "StoreAdapter.__init__", "_get_bound_names", "get_state", "set_state", "message_signature",
+        {"functions": ["ReducerMethodWrappingDispatcher.regularize_returned_event", "tag_events_by_method_name", "_find_mapping_name", "StoreAdapter.__init__", "_get_bound_names", "get_state", "set_state", "timer_delay_dispatcher", "named_dispatcher", "Store.use_entity", "message_signature",
                        "AddressedStore._resolve_address", "AddressedStore.local"], "sources": [COMP, BASE]}
 
 
@@ -309,6 +377,8 @@ Section WrapperSrc.
   Variable Pay : Type.
   Variable empty_pay : Pay.          (* {} *)
   Variable Ent : Type.
+  Variable clock0 : Ent.                                       (* Clock() *)
+  Variable spent : Ent -> Pay -> option Ent.                   (* clock.spent(payload); None = TypeError *)
 
 """
 
